@@ -181,6 +181,28 @@ fn execute_net(prop: &str, p: &net::NetProgram) -> RunInfo {
                     }
                 }
             }
+            // another thread of the process waits in `Sim::new` while this simulation runs: it gets its simulation only when
+            // this one is gone - completely (remaining events are dropped first here, they are not owned by the simulation)
+            if let (true, Some((k, _))) = (ok && p.end_mode == 0, p.intruder) {
+                let seen = std::sync::Arc::new(std::sync::atomic::AtomicI64::new(-1));
+                let s2 = seen.clone();
+                let beats = res.trace.iter().filter(|r| matches!(r.ev, net::Ev::Beat { .. })).count().max(1);
+                let other = intr::arm(k as usize % beats, move || net::wait_for_sim_and_count_live(&s2));
+                let mut q = p.clone();
+                q.drop_order = 2;
+                let before = bodies::LIVE_TOKENS.load(std::sync::atomic::Ordering::SeqCst);
+                let _ = net::run_net(&q, &net::RunOpts::default());
+                intr::disarm();
+                if other.join().unwrap_or(false) && before == 0 {
+                    info.probe("other_thread_waited_for_its_simulation");
+                    let n = seen.load(std::sync::atomic::Ordering::SeqCst);
+                    if n > 0 {
+                        info.violate(Violation::new("C20", "alive-when-next-simulation-starts", format!(
+                            "a thread that was waiting in Sim::new got its simulation while {n} values of the previous simulation (module state, task state, messages) were still alive")));
+                        ok = false;
+                    }
+                }
+            }
             if ok {
                 follow_up_ok("C20", "dropping a simulation", &mut info);
             }
